@@ -18,6 +18,9 @@ typedef int64_t (*sse_fn)(const uint8_t *, int, const uint8_t *, int, int, int);
 typedef uint32_t (*nxm_fn)(const uint8_t *, uint32_t, const uint8_t *, uint32_t, uint32_t, uint32_t);
 typedef void (*avg_fn)(uint8_t *, uint32_t, uint8_t *, uint32_t, uint8_t *, uint32_t, uint32_t, uint32_t);
 
+typedef void (*cdef_fn)(uint8_t *, uint16_t *, int32_t, const uint16_t *, int32_t, int32_t, int32_t, int32_t, int32_t, int32_t, int32_t);
+typedef int32_t (*cdefdir_fn)(const uint16_t *, int32_t, int32_t *, int32_t);
+
 #include "kern_items.inc"
 
 static void run_pred8(const Item *it, int vi) {
@@ -122,6 +125,44 @@ static void run_resid16(const Item *it, int vi) {
 out: free(a); free(b);
 }
 
+#define CB 144   /* stride of the CDEF input tile (CDEF_BSTRIDE) */
+static void run_cdef(const Item *it, int vi) {
+    static uint16_t tile[(64 + 16) * CB]; uint8_t *d8a = al(64 * 64), *d8b = al(64 * 64); uint16_t *d16a = al(2 * 64 * 64), *d16b = al(2 * 64 * 64);
+    static const int bw[4] = {4, 4, 8, 8}, bh[4] = {4, 8, 4, 8};
+    for (int shift = 0; shift <= 2; shift += 2) for (int pat = 0; pat < 6; pat++) for (int edge = 0; edge < 6; edge++) {
+        int maxv = (255 << shift) | (shift ? 3 : 0);
+        for (int i = 0; i < (64 + 16) * CB; i++) tile[i] = (uint16_t)sample(pat == 5 ? 7 : pat, i, maxv);
+        /* picture / skipped-region edges: whole rows or columns of "unavailable" markers around the block at (8,8) */
+        uint16_t *in = tile + 8 * CB + 8;
+        if (edge == 1 || edge == 5) for (int r = -3; r < 0; r++) for (int c = -8; c < 16; c++) in[r * CB + c] = 16384;
+        if (edge == 2 || edge == 5) for (int r = -3; r < 12; r++) for (int c = -8; c < 0; c++) in[r * CB + c] = 16384;
+        if (edge == 3) for (int r = -3; r < 12; r++) for (int c = 4; c < 16; c++) in[r * CB + c] = 16384;
+        if (edge == 4) for (int r = 4; r < 12; r++) for (int c = -8; c < 16; c++) in[r * CB + c] = 16384;
+        for (int bs = 0; bs < 4; bs++) {
+            if ((edge == 3 && bw[bs] != 4) || (edge == 4 && bh[bs] != 4)) continue;
+            for (int dir = 0; dir < 8; dir++) for (int pri = 0; pri < 16; pri += (pri < 4 ? 1 : 5)) for (int sec = 0; sec <= 4; sec = sec ? sec * 2 : 1) for (int damp = 3; damp <= 6; damp += 3) for (int to16 = 0; to16 < 2; to16++) {
+                if (!pri && !sec) continue;   /* the filter is never called with both strengths zero (the block is copied instead) */
+                if (!to16 && shift) continue;  /* an 8-bit destination goes with 8-bit samples only */
+                memset(d8a, 0x11, 64 * 64); memset(d8b, 0x11, 64 * 64); memset(d16a, 0x11, 2 * 64 * 64); memset(d16b, 0x11, 2 * 64 * 64);
+                ((cdef_fn)it->c)(to16 ? NULL : d8a, to16 ? d16a : NULL, 16, in, pri << shift, sec << shift, dir, damp + shift, damp + shift - 1 < 3 ? 3 : damp + shift - 1, bs, shift);
+                ((cdef_fn)it->v[vi])(to16 ? NULL : d8b, to16 ? d16b : NULL, 16, in, pri << shift, sec << shift, dir, damp + shift, damp + shift - 1 < 3 ? 3 : damp + shift - 1, bs, shift);
+                ncall++;
+                if (memcmp(d8a, d8b, 64 * 64) || memcmp(d16a, d16b, 2 * 64 * 64)) { if (getenv("KERN_DEBUG")) { for (int q = 0; q < 64 * 64; q++) if (d8a[q] != d8b[q] || d16a[q] != d16b[q]) { printf("DBG shift %d pat %d edge %d bs %d dir %d pri %d sec %d damp %d to16 %d at %d: %d %d / %d %d\n", shift, pat, edge, bs, dir, pri, sec, damp, to16, q, d8a[q], d8b[q], d16a[q], d16b[q]); break; } } mismatch(it, vi, to16 ? "cdef_filter_block_dst16" : "cdef_filter_block_dst8", bs, edge, dir * 100 + pri); goto out; }
+            }
+        }
+    }
+out: free(d8a); free(d8b); free(d16a); free(d16b);
+}
+static void run_cdefdir(const Item *it, int vi) {
+    uint16_t *img = al(2 * 64 * 64);
+    for (int shift = 0; shift <= 2; shift += 2) for (int pat = 0; pat < NPAT; pat++) for (int rep = 0; rep < 4; rep++) {
+        for (int i = 0; i < 64 * 64; i++) img[i] = (uint16_t)sample(pat, i + rep * 131, (255 << shift) | (shift ? 3 : 0));
+        int32_t v0 = -1, v1 = -2; int32_t r0 = ((cdefdir_fn)it->c)(img + rep * 3, 16 + rep * 8, &v0, shift), r1 = ((cdefdir_fn)it->v[vi])(img + rep * 3, 16 + rep * 8, &v1, shift);
+        ncall++; if (r0 != r1 || v0 != v1) { mismatch(it, vi, "cdef_find_dir", pat, rep, shift); break; }
+    }
+    free(img);
+}
+
 int main(int argc, char **argv) {
     unsigned long long flags = argc > 1 ? strtoull(argv[1], NULL, 16) : 0;
     const char *only = argc > 2 ? argv[2] : NULL;
@@ -141,6 +182,8 @@ int main(int argc, char **argv) {
             case 3: case 4: case 5: case 8: case 9: case 11: case 12: case 13: run_two8(it, vi); break;
             case 6: case 7: run_obmc(it, vi); break;
             case 10: run_resid16(it, vi); break;
+            case 14: run_cdef(it, vi); break;
+            case 15: run_cdefdir(it, vi); break;
             }
         }
     }
